@@ -29,6 +29,7 @@ structure DNode (nd : Nd) : Prop where
   nl : isLoop nd.kind = false
   nu : isUdf nd.kind = false
   fd : nd.fwdDead = false
+  bd : isBarrier nd.kind = true → nd.done = true → nd.helperDone = true
 
 /-- Producer/consumer facts of an edge. -/
 def DPair (nd c : Nd) : Prop := (nd.done = true → c.inClosed = true ∨ c.inAborted = true) ∧ (c.inClosed = true → nd.done = true)
@@ -36,7 +37,7 @@ def DPair (nd c : Nd) : Prop := (nd.done = true → c.inClosed = true ∨ c.inAb
 set_option maxHeartbeats 4000000 in
 theorem nodeStep_DNode {env a nd child r} (h : nodeStep env a nd child = some r) (hd : DNode nd)
     (hleak : env.alertLeak = false) : DNode r.nd := by
-  obtain ⟨h1, ab, fa, dn, fh, al, ah, ad, as, nh, ih, nl, nu, fd⟩ := hd
+  obtain ⟨h1, ab, fa, dn, fh, al, ah, ad, as, nh, ih, nl, nu, fd, bd⟩ := hd
   have hstop : isAlert nd.kind = true → nd.failed = false → (0 < nd.inq ∨ nd.hand = 1) → nd.stopping = false := by
     intro a b c
     cases hs : nd.stopping with
@@ -45,8 +46,8 @@ theorem nodeStep_DNode {env a nd child r} (h : nodeStep env a nd child = some r)
   nstep h
   all_goals (first
     | (exfalso; simp_all [isLoop, isUdf]; done)
-    | (constructor <;> simp_all [isAlert, isInflux, isUdf, isLoop, Kind.hasHelper, exitOk, exitFailedOk] <;> (try omega) <;>
+    | (constructor <;> simp_all [isAlert, isInflux, isUdf, isLoop, isBarrier, Kind.hasHelper, exitOk, exitFailedOk] <;> (try omega) <;>
         (try (cases hs : nd.stopping <;> simp_all <;> done)) <;> (try grind) <;>
-        (cases hk : nd.kind <;> simp_all [isAlert, isInflux, isUdf, isLoop, Kind.hasHelper] <;> (first | omega | grind))))
+        (cases hk : nd.kind <;> simp_all [isAlert, isInflux, isUdf, isLoop, isBarrier, Kind.hasHelper] <;> (first | omega | grind))))
 
 end Kap.C07
